@@ -60,7 +60,7 @@ pub fn run(args: &[String]) {
             continue;
         }
         let rs = seed.wrapping_mul(1_000_003).wrapping_add(r as u64);
-        let kind = r % 3;
+        let kind = r % 4;
         let gen = json!({"drv":"abs","args":format!("matrix --seed {seed} --runs {runs} --ops {ops} --only {r}")});
         let scenario = |rec: Rec| {
             if kind == 2 {
@@ -78,6 +78,16 @@ pub fn run(args: &[String]) {
                 }
                 let mut d = Driver { rec, rng: StdRng::seed_from_u64(rs ^ 1), suffix_salt: rs, cid: "w".into() };
                 d.history(&h, 0, &FaultCfg::none(), gen.clone());
+            } else if kind == 3 {
+                // replication with altered proofs in between: what a replica refuses must leave no
+                // trace in the node cache either (the honest requests that follow are built from
+                // the replica's own missing_nodes and must be answered and accepted alike)
+                let mut rd = ReplDriver {
+                    d: Driver { rec, rng: StdRng::seed_from_u64(rs ^ 0x5eed), suffix_salt: rs, cid: "r".into() },
+                    rng: StdRng::seed_from_u64(rs),
+                };
+                let g = ReplCfg { rounds: 2, writer_ops: 4, requests: 5, max_block: 24, max_batch: 4, p_clear: 0.0, p_reopen: 0.1, subs: 1 };
+                rd.honest_run(gen.clone(), &g, &FaultCfg::none(), true);
             } else if kind == 0 {
                 let mut rng = StdRng::seed_from_u64(rs);
                 let g = profile(if r % 4 == 0 { "small" } else { "long" }, ops);
@@ -105,7 +115,12 @@ pub fn run(args: &[String]) {
             ("vstore/cache", 0, 1), ("vstore/3-nodes", 0, 2), ("vstore/1-node", 0, 3), ("vstore/13-nodes", 0, 4),
             ("memory/1-node", 1, 3), ("memory/13-nodes", 1, 4),
         ];
-        let configs: &Vec<(&str, u8, u8)> = if kind == 2 { &stress } else { &configs };
+        let forged: Vec<(&str, u8, u8)> = vec![
+            // (the roll-back after a harmlessly accepted alteration restores the replica from store
+            // images, which only the instrumented backend can do)
+            ("vstore/cache", 0, 1), ("vstore/3-nodes", 0, 2), ("vstore/1-node", 0, 3), ("vstore/13-nodes", 0, 4),
+        ];
+        let configs: &Vec<(&str, u8, u8)> = if kind == 2 { &stress } else if kind == 3 { &forged } else { &configs };
         let base = capture(0, 0, &work, &scenario);
         for l in &base {
             main.emit(serde_json::from_str(l).unwrap());
